@@ -1,11 +1,15 @@
 import IpamVerif.Justified
 import IpamVerif.Tight
+import IpamVerif.Restart
 /-!
 # C04 — blocks are withheld only while something in the cluster justifies it
 
 **Proved over whole histories, on the fragment of `Safety.lean`** (`withheld_only_while_justified`, from
 `Tight.lean`): at every moment a block in use is a pod CIDR of an existing node, or of a deleted node whose
-delete notification is still to come, or meets a service range.  **Proved with no assumption on the history**
+delete notification is still to come, or meets a service range.  **With restarts at any instant**
+(`withheld_only_while_justified_with_restarts`, `after_restart_only_justified`, from `Restart.lean`): the same, and
+right after a restart nothing but the listed holders' CIDRs and the service ranges is in use — whatever the crashed
+incarnation had reserved or leaked is free.  **Proved with no assumption on the history**
 (`Justified.lean`): reserve-then-release restores the pool, a refused or failed attempt reserves nothing, every
 release branch of `updateCIDRsAllocation`, what one allocation item may keep.  **Outside the fragment** blocks do
 leak on the pinned code: findings P8 P11 P17b P19 P21 (witnesses replayed on every run), and P13 for lost writes.
@@ -33,5 +37,42 @@ theorem withheld_only_while_justified (s : Sys) (hs : Safety.Inv s) (hT : Safety
     · obtain ⟨w, hw, hwn⟩ := hI.pend j x hcx
       exact Or.inr (Or.inl ⟨v, hvm, hcd, w, hw, hwn.trans hvn.symm⟩)
   · exact Or.inr (Or.inr hsvc)
+
+/-- **C04 on the fragment with restarts** -/
+theorem withheld_only_while_justified_with_restarts (s : Sys) (hs : Restart.Inv4 s) (evs : List Ev)
+    (hf : Restart.Frag3All s evs) :
+    ∀ j cd, Safety.UsedAt (run s evs).alloc j cd →
+      (∃ v ∈ (run s evs).api.nodes, cd ∈ v.cidrs) ∨
+      (∃ v ∈ (run s evs).api.graves, cd ∈ v.cidrs ∧ ∃ w ∈ (run s evs).nodeView, w.name = v.name) ∨
+      (∃ svc ∈ (run s evs).svcs, ¬ cd.Disjoint svc) := by
+  intro j cd hu
+  have hI := Restart.inv4_run evs s hs hf
+  rcases hI.tight j cd hu with ⟨x, hcx, v, hvm, hvn, hcd⟩ | hsvc
+  · rcases List.mem_append.mp hvm with hvm | hvm
+    · exact Or.inl ⟨v, hvm, hcd⟩
+    · obtain ⟨w, hw, hwn⟩ := hI.inv3.inv.pend j x hcx
+      exact Or.inr (Or.inl ⟨v, hvm, hcd, w, hw, hwn.trans hvn.symm⟩)
+  · exact Or.inr (Or.inr hsvc)
+
+/-- right after a restart: only pod CIDRs of listed nodes and blocks meeting a service range are in use -/
+theorem after_restart_only_justified {s : Sys} (h : Restart.Inv3 s) (svcs : List Cidr) (ws : List WOut)
+    (hf : Restart.Frag3 s (.boot svcs ws)) :
+    ∀ j cd, Safety.UsedAt (boot s svcs ws).1.alloc j cd →
+      (∃ v ∈ (boot s svcs ws).1.api.nodes, cd ∈ v.cidrs) ∨ (∃ svc ∈ (boot s svcs ws).1.svcs, ¬ cd.Disjoint svc) := by
+  intro j cd hu
+  rcases Restart.restart_withholds_only_justified h svcs ws hf j cd hu with ⟨x, hcx, v, hvm, hvn, hcd⟩ | hsvc
+  · obtain ⟨v', hv', hvn', _, hvu⟩ := Restart.restart_claims_listed h svcs ws hf j x hcx
+    rcases List.mem_append.mp hvm with hvm | hvm
+    · exact Or.inl ⟨v, hvm, hcd⟩
+    · -- a recorded final state cannot carry the name of a listed node
+      have k := (Restart.inv3_step h (.boot svcs ws) hf).inv
+      have k' : Safety.Inv (boot s svcs ws).1 := k
+      exact absurd (by rw [hvn, hvn']) (k'.gravesFresh v hvm v' hv')
+  · exact Or.inr hsvc
+
+/-- the hypotheses of the theorems with restarts are satisfiable -/
+example : Restart.Inv4 Restart.exStart3 := ⟨Restart.exStart3_inv3, Safety.tight_init _ (by
+  rintro j cd ⟨c, p, k, hg, _⟩
+  simp [Alloc.get?, Restart.exStart3, Sys.init] at hg)⟩
 
 end Ipam.C04
